@@ -117,3 +117,16 @@ package transp
 //@   props C15
 //@   hyp d <= 63 && typ <= 2
 //@   concl entDepth(mkEnt(0, 0, packDT(d, typ), 0)) == d && entType(mkEnt(0, 0, packDT(d, typ), 0)) == typ
+//@
+//@ # ---- `search` views (used when verifying the search; the functional contracts above are C15)
+//@ func (*Table).LookUp view search
+//@   trusted read-only; the returned entry is an arbitrary entry (which one is C15)
+//@   modifies nothing
+//@
+//@ func (*Table).Insert view search
+//@   trusted frame only: writes the table's buckets (what is written is C15)
+//@   modifies t.data.*
+//@
+//@ func (Table).HashFull view search
+//@   trusted read-only
+//@   modifies nothing
